@@ -103,9 +103,22 @@ class ChildFailure(Exception):
 # one run
 # --------------------------------------------------------------------------------------------
 
+class Discard(Exception):
+    """The generated workload is not valid on this tree (e.g. the well-formed base chart does not
+    parse): the run is discarded and counted, never judged."""
+
+
+def _execute(mod: Any, plan: dict[str, Any]) -> dict[str, Any]:
+    try:
+        return mod.execute(plan)
+    except Discard as d:
+        return {"violations": [], "digest": "discarded:" + str(d), "evals": 0,
+                "discarded": {"run:" + str(d): 1}, "discarded_run": True}
+
+
 def _run_seed(mod: Any, seed: int, tier: str, index: int) -> dict[str, Any]:
     plan = mod.make_plan(seed, tier, index)
-    res = mod.execute(plan)
+    res = _execute(mod, plan)
     res["plan_digest"] = rng.digest(plan)
     if res.get("violations"):
         res["plan"] = plan
@@ -113,7 +126,7 @@ def _run_seed(mod: Any, seed: int, tier: str, index: int) -> dict[str, Any]:
 
 
 def _run_plan(mod: Any, plan: dict[str, Any]) -> dict[str, Any]:
-    res = mod.execute(plan)
+    res = _execute(mod, plan)
     res["plan_digest"] = rng.digest(plan)
     return res
 
@@ -147,12 +160,15 @@ class Agg:
         self.last_index: int | None = None
         self.digests: dict[int, str] = {}
         self.fresh_refs = 0
+        self.discarded_runs = 0
 
     def add_run(self, index: int, res: dict[str, Any], known_list: list[known.Known],
                 keep_digests: bool) -> bool:
         """Returns True when the run carries an unlisted violation."""
         self.runs += 1
         self.evals += int(res.get("evals", 1))
+        if res.get("discarded_run"):
+            self.discarded_runs += 1
         self.first_index = index if self.first_index is None else min(self.first_index, index)
         self.last_index = index if self.last_index is None else max(self.last_index, index)
         for key in self.sums:
@@ -216,6 +232,7 @@ class Agg:
         self.switches += o.switches
         self.mid_op_switches += o.mid_op_switches
         self.fresh_refs += o.fresh_refs
+        self.discarded_runs += o.discarded_runs
         self.samples = (self.samples + o.samples)[:MAX_SAMPLES]
         self.violations += o.violations
         for k, v in o.known_hits.items():
@@ -530,6 +547,11 @@ def main(argv: list[str]) -> int:
         rc = 2
     if agg.runs == 0 and rc == 0:
         print("HARNESS-ERROR no run completed")
+        rc = 2
+    if rc == 0 and agg.discarded_runs * 2 > agg.runs:
+        print(f"HARNESS-ERROR {agg.discarded_runs} of {agg.runs} runs were discarded because the "
+              f"generated workload is not valid on this tree ({dict(agg.sums['discarded'])}); the "
+              "check cannot judge the property here (this is not a violation report)")
         rc = 2
     wall = time.monotonic() - t0
     if not a.no_evidence:
